@@ -87,7 +87,25 @@ def build_unit(cid, u):
         if os.path.exists(f):
             os.remove(f)
     t = time.time()
-    p = subprocess.run(cmd, stdout=subprocess.PIPE, stderr=subprocess.STDOUT, text=True)
+    if len(srcs) > 1:
+        # several translation units: compile the objects in parallel, then link
+        cxx = u['cxx'] or CXX
+        cflags = base_flags() + MODES[u['mode']] + u['flags']
+        objs = [os.path.join(odir, os.path.basename(sp) + '.o') for sp in srcs]
+        def cc(i):
+            return subprocess.run([cxx] + cflags + ['-c', srcs[i], '-o', objs[i]], stdout=subprocess.PIPE, stderr=subprocess.STDOUT, text=True)
+        with ThreadPoolExecutor(len(srcs)) as ex:
+            rs = list(ex.map(cc, range(len(srcs))))
+        log = ''.join(r.stdout for r in rs)
+        rc = max(r.returncode for r in rs)
+        if rc == 0:
+            lk = subprocess.run([cxx] + MODES[u['mode']] + u['flags'] + objs + ['-o', binp] + LIBS + u['libs'], stdout=subprocess.PIPE, stderr=subprocess.STDOUT, text=True)
+            log += lk.stdout
+            rc = lk.returncode
+        class P: pass
+        p = P(); p.returncode = rc; p.stdout = log
+    else:
+        p = subprocess.run(cmd, stdout=subprocess.PIPE, stderr=subprocess.STDOUT, text=True)
     log = p.stdout
     open(os.path.join(odir, 'build.log'), 'w').write(' '.join(cmd) + '\n' + log)
     if p.returncode != 0:
